@@ -689,6 +689,33 @@ void checkL3(const plan::Plan& p, const RunData& rd, hz::RunResult* res) {
       }
     }
   }
+  // ---- C17 at daemon level (family c17d): every message with a poll priority keeps being polled ----
+  // one poll per second, at most 4 messages with priorities 1..3: the rarest one is due every 10th poll at worst, so each of
+  // the windows [12 s, 40 s] and [40 s, 68 s] must contain a telegram of every message that had a priority by 10 s
+  if (family == "c17d") {
+    std::map<std::string, int64_t> askedAt;
+    for (const CmdRecord& r : rd.cmds) if (r.tag == "pollask" && r.doneT >= 0 && r.response.compare(0, 4, "ERR:") != 0 && !askedAt.count(r.line.get("msg"))) askedAt[r.line.get("msg")] = r.doneT;
+    for (auto& l : p.lines) {
+      if (l.kind != "msg") continue;
+      bool enrolled = l.num("poll", 0) > 0 || (askedAt.count(l.get("name")) && askedAt[l.get("name")] < 10000 * 1000000LL);
+      if (!enrolled || rd.endT < 70000 * 1000000LL) continue;
+      Bytes id = ref::unhex(l.get("id"));
+      int n1 = 0, n2 = 0;
+      for (const Exchange& e : rd.exchanges) {
+        if (e.master.size() < 5 + id.size() || e.master[1] != l.num("zz") || e.master[2] != l.num("pb") || e.master[3] != l.num("sb") || !std::equal(id.begin(), id.end(), e.master.begin() + 5)) continue;
+        if (e.t >= 12000 * 1000000LL && e.t < 40000 * 1000000LL) n1++;
+        if (e.t >= 40000 * 1000000LL && e.t < 68000 * 1000000LL) n2++;
+      }
+      judged++;
+      res->counters["c17d.messages_judged"]++;
+      if (n1 == 0 || n2 == 0) {
+        char buf[300];
+        snprintf(buf, sizeof(buf), "message %s (priority %s) was polled %d times between 12 s and 40 s and %d times between 40 s and 68 s (%zu telegrams of ebusd in the run)", l.get("name").c_str(),
+                 l.num("poll", 0) > 0 ? l.get("poll").c_str() : "from a client", n1, n2, rd.exchanges.size());
+        res->violate("C17", "starvation", "enrolled-but-never-polled daemon", buf);
+      }
+    }
+  }
   // ---- C18: MQTT topics built from the template map back to the same (circuit, name, field) ----
   if (!rd.mqttIn.empty()) {
     std::string tmpl;
